@@ -1,11 +1,331 @@
 (* C16 - lemmas about the model of schema / column persistence (coq/Model/C16.v). *)
 From Coq Require Import List NArith ZArith Bool Lia.
+From Coq Require Import String.  (* string literal notation only *)
 From Orso Require Import Base.C16_Defs Gen.C16_Fields Model.C16.
 From Orso Require Base.C06_Defs Gen.C06_Types Model.C06 Model.C05.
 Import ListNotations.
 
-(* the regenerated field lists are the ones the model's record has *)
+(* ---------- the regenerated tables are the ones modelled ---------- *)
 Lemma field_tables_modelled :
   map fst column_field_table = map field_name all_fields /\
   map fst schema_field_table = schema_field_names.
 Proof. split; vm_compute; reflexivity. Qed.
+
+(* the type table from_name (Model/C06.v) works on is the one regenerated here *)
+Lemma type_table_shared : type_members = Gen.C06_Types.members.
+Proof. vm_compute; reflexivity. Qed.
+
+(* ---------- text ---------- *)
+Lemma str_eqb_refl : forall a, str_eqb a a = true.
+Proof. induction a as [|x a IH]; cbn [str_eqb]; [reflexivity|]. rewrite N.eqb_refl, IH. reflexivity. Qed.
+
+Lemma str_eqb_eq : forall a b, str_eqb a b = true -> a = b.
+Proof.
+  induction a as [|x a IH]; destruct b as [|y b]; cbn [str_eqb]; intros H; try discriminate; [reflexivity|].
+  apply andb_true_iff in H. destruct H as [H1 H2]. apply N.eqb_eq in H1. f_equal; auto.
+Qed.
+
+Lemma str_eqb_neq : forall a b, a <> b -> str_eqb a b = false.
+Proof. intros a b H. destruct (str_eqb a b) eqn:E; [|reflexivity]. apply str_eqb_eq in E. contradiction. Qed.
+
+Lemma mem_In : forall x l, mem x l = true -> In x l.
+Proof.
+  intros x l H. unfold mem in H. apply existsb_exists in H. destruct H as [y [Hy E]].
+  apply str_eqb_eq in E. subst. exact Hy.
+Qed.
+
+(* ---------- records ---------- *)
+Lemma get_build : forall g f, get f (build g) = g f.
+Proof. intros g f. destruct f; reflexivity. Qed.
+
+Lemma build_get : forall c, build (fun f => get f c) = c.
+Proof. intros c. destruct c; reflexivity. Qed.
+
+Lemma set_same : forall f c, set f (get f c) c = c.
+Proof. intros f c. destruct c, f; reflexivity. Qed.
+
+Lemma get_set_same : forall f v c, get f (set f v c) = v.
+Proof. intros f v c. destruct f; reflexivity. Qed.
+
+Lemma get_set_other : forall f f' v c, f <> f' -> get f' (set f v c) = get f' c.
+Proof. intros f f' v c H. destruct f, f'; try reflexivity; contradiction H; reflexivity. Qed.
+
+Lemma is_none_eq : forall v, is_none v = true -> v = PNone.
+Proof. intros v H. destruct v as [a|l]; [destruct a|]; try discriminate. reflexivity. Qed.
+
+Lemma fill_none : forall f c, fill f PNone c = c.
+Proof.
+  intros f c. unfold fill. destruct (is_none (get f c)) eqn:E; [|reflexivity].
+  apply is_none_eq in E. rewrite <- E. apply set_same.
+Qed.
+
+Lemma fill_present : forall f v c, is_none (get f c) = false -> fill f v c = c.
+Proof. intros f v c H. unfold fill. rewrite H. reflexivity. Qed.
+
+Lemma lookup_map : forall (g : field -> pv) f, lookup f (map (fun f' => (f', g f')) all_fields) = Some (g f).
+Proof. intros g f. destruct f; reflexivity. Qed.
+
+Lemma lookup_to_dict : forall f c, lookup f (to_dict_col c) = Some (conv (get f c)).
+Proof. intros f c. unfold to_dict_col. apply (lookup_map (fun f' => conv (get f' c))). Qed.
+
+Lemma of_assoc_map : forall g, of_assoc (map (fun f => (f, g f)) all_fields) = build g.
+Proof. intros g. reflexivity. Qed.
+
+Lemma mapM_ok : forall (A B : Type) (F : A -> result B) (G : A -> B) (l : list A),
+  (forall x, In x l -> F x = Ok (G x)) -> mapM F l = Ok (map G l).
+Proof.
+  intros A B F G l. induction l as [|x l IH]; intros H; cbn [mapM map]; [reflexivity|].
+  rewrite (H x (or_introl eq_refl)). cbn [bind]. rewrite IH; [reflexivity|].
+  intros y Hy. apply H. right. exact Hy.
+Qed.
+
+(* ---------- names of types and dispositions resolve back to their members ---------- *)
+Definition ty_varchar : str := Eval vm_compute in txt "VARCHAR"%string.
+
+Lemma member_names_resolve :
+  Forall (fun x => x = missing_member \/
+                   from_name_pv (PA (AText (type_value x))) =
+                   Ok (Model.C06.plain (Model.C06.TMember x) (if str_eqb x ty_array then Some ty_varchar else None)))
+         type_names.
+Proof.
+  unfold type_names, type_members. cbn [map fst].
+  repeat (constructor; [ first [ left; reflexivity | right; vm_compute; reflexivity ] | ]).
+  constructor.
+Qed.
+
+Lemma missing_name_resolves :
+  from_name_pv (PA (AText (type_value missing_member))) = Ok (Model.C06.plain Model.C06.TZero None) /\
+  from_name_pv (PA (AInt 0)) = Ok (Model.C06.plain Model.C06.TZero None).
+Proof. split; vm_compute; reflexivity. Qed.
+
+Lemma disposition_values_resolve :
+  Forall (fun x => disp_of_value (disp_value x) = Some x) disp_names.
+Proof.
+  unfold disp_names, disposition_members. cbn [map fst].
+  repeat (constructor; [ vm_compute; reflexivity | ]). constructor.
+Qed.
+
+Lemma member_resolves : forall m,
+  mem m type_names = true -> m <> missing_member ->
+  from_name_pv (PA (AText (type_value m))) =
+  Ok (Model.C06.plain (Model.C06.TMember m) (if str_eqb m ty_array then Some ty_varchar else None)).
+Proof.
+  intros m Hm Hn. apply mem_In in Hm.
+  pose proof (proj1 (Forall_forall _ _) member_names_resolve m Hm) as [H|H]; [contradiction|exact H].
+Qed.
+
+Lemma disposition_resolves : forall d, mem d disp_names = true -> disp_of_value (disp_value d) = Some d.
+Proof. intros d Hd. apply mem_In in Hd. exact (proj1 (Forall_forall _ _) disposition_values_resolve d Hd). Qed.
+
+Section Chain.
+Variable parse : str -> pv -> result pv.
+
+Definition untyped (c : column) : bool :=
+  match c_type c with PA (ATy m) => str_eqb m missing_member | _ => false end.
+Definition restored (c : column) : column := if untyped c then set FType (PA (AInt 0)) c else c.
+
+(* what is required of a column for its text form to resolve back to it *)
+Record wf_col (c : column) : Prop := mkwf {
+  wf_type : exists m, c_type c = PA (ATy m) /\ mem m type_names = true;
+  wf_elt : c_elt c = PNone \/ exists e, c_elt c = PA (ATy e) /\ mem e type_names = true /\ e <> missing_member;
+  wf_arr : c_type c = PA (ATy ty_array) -> c_elt c <> PNone;
+  wf_disp : c_disposition c = PNone \/ exists d, c_disposition c = PA (ADisp d) /\ mem d disp_names = true;
+  wf_dec : c_type c = PA (ATy ty_decimal) -> is_none (c_precision c) = false /\ is_none (c_scale c) = false
+}.
+
+(* the chain of normalisation steps on a column whose type / element type / disposition are in text form *)
+Definition chain (c1 : column) : result column :=
+  bind (norm_disposition c1) (fun c1 =>
+  bind (norm_element c1) (fun c2 =>
+  bind (norm_type c2) (fun c3 =>
+  bind (norm_default parse c3) (fun c4 =>
+  norm_decimal c4)))).
+
+Definition text_form (v : pv) : pv :=
+  match v with
+  | PA (ATy m) => PA (AText (type_value m))
+  | PA (ADisp m) => PA (AText (disp_value m))
+  | _ => v
+  end.
+
+Definition kw_view (c : column) (D X : pv) (f : field) : pv :=
+  match f with
+  | FType => text_form (c_type c)
+  | FElementType => text_form (c_elt c)
+  | FDisposition => text_form (c_disposition c)
+  | FDefault => D
+  | FExpectations => X
+  | _ => get f c
+  end.
+
+Lemma chain_text : forall c D,
+  wf_col c ->
+  (if untyped c then truthy D = false /\ D = c_default c
+   else (truthy D = true -> forall m, c_type c = PA (ATy m) -> parse m D = Ok (c_default c)) /\
+        (truthy D = false -> D = c_default c)) ->
+  chain (build (kw_view c D (c_expectations c))) = Ok (restored c).
+Proof.
+  intros c D [[m [Ht Hm]] He Ha Hd Hdec] HD.
+  destruct c as [n d t e ds dp al nu ex id ln pr sc og hi lo nc].
+  cbn [c_type c_elt c_disposition c_default c_precision c_scale c_expectations] in *. subst t.
+  unfold chain, restored, untyped in *. cbn [c_type c_expectations] in *.
+  (* disposition *)
+  change (build (kw_view (mkcolumn n d (PA (ATy m)) e ds dp al nu ex id ln pr sc og hi lo nc) D ex))
+    with (mkcolumn n D (PA (AText (type_value m))) (text_form e) ds (text_form dp) al nu ex id ln pr sc og hi lo nc).
+  assert (S1 : norm_disposition (mkcolumn n D (PA (AText (type_value m))) (text_form e) ds (text_form dp) al nu ex id ln pr sc og hi lo nc)
+               = Ok (mkcolumn n D (PA (AText (type_value m))) (text_form e) ds dp al nu ex id ln pr sc og hi lo nc)).
+  { destruct Hd as [-> | [x [-> Hx]]].
+    - reflexivity.
+    - unfold norm_disposition. cbn [c_disposition text_form].
+      rewrite (disposition_resolves x Hx). reflexivity. }
+  rewrite S1. cbn [bind]. clear S1.
+  (* element type *)
+  assert (S2 : norm_element (mkcolumn n D (PA (AText (type_value m))) (text_form e) ds dp al nu ex id ln pr sc og hi lo nc)
+               = Ok (mkcolumn n D (PA (AText (type_value m))) e ds dp al nu ex id ln pr sc og hi lo nc)).
+  { destruct He as [-> | [y [-> [Hy Hny]]]].
+    - reflexivity.
+    - unfold norm_element. cbn [c_elt text_form]. rewrite (member_resolves y Hy Hny). reflexivity. }
+  rewrite S2. cbn [bind]. clear S2.
+  (* type *)
+  destruct (str_eqb m missing_member) eqn:Em.
+  - apply str_eqb_eq in Em. subst m. destruct HD as [HD1 HD2]. subst D.
+    unfold norm_type. cbn [c_type]. rewrite (proj1 missing_name_resolves). cbn [bind].
+    unfold Model.C06.plain. cbn [Model.C06.d_ty pv_of_tyref].
+    change (set FType (PA (AInt 0)) (mkcolumn n d (PA (AText (type_value missing_member))) e ds dp al nu ex id ln pr sc og hi lo nc))
+      with (mkcolumn n d (PA (AInt 0)) e ds dp al nu ex id ln pr sc og hi lo nc).
+    cbn [bind]. unfold norm_default. cbn [c_default c_type]. rewrite HD1. cbn [bind].
+    reflexivity.
+  - assert (Hn : m <> missing_member) by (intros ->; rewrite str_eqb_refl in Em; discriminate).
+    assert (S3 : norm_type (mkcolumn n D (PA (AText (type_value m))) e ds dp al nu ex id ln pr sc og hi lo nc)
+                 = Ok (mkcolumn n D (PA (ATy m)) e ds dp al nu ex id ln pr sc og hi lo nc)).
+    { unfold norm_type. cbn [c_type]. rewrite (member_resolves m Hm Hn). cbn [bind].
+      unfold Model.C06.plain. cbn [Model.C06.d_ty Model.C06.d_len Model.C06.d_prec Model.C06.d_scale Model.C06.d_elt pv_of_tyref pv_of_optN].
+      rewrite !fill_none.
+      destruct (str_eqb m ty_array) eqn:Ea.
+      + apply str_eqb_eq in Ea. subst m. rewrite fill_present; [reflexivity|].
+        cbn. destruct e as [[]|]; try reflexivity. exfalso. apply (Ha eq_refl). reflexivity.
+      + cbn [pv_of_optT]. rewrite fill_none. reflexivity. }
+    rewrite S3. cbn [bind]. clear S3.
+    destruct HD as [HD1 HD2].
+    assert (S4 : norm_default parse (mkcolumn n D (PA (ATy m)) e ds dp al nu ex id ln pr sc og hi lo nc)
+                 = Ok (mkcolumn n d (PA (ATy m)) e ds dp al nu ex id ln pr sc og hi lo nc)).
+    { unfold norm_default. cbn [c_default c_type]. destruct (truthy D) eqn:ET.
+      - rewrite (HD1 eq_refl m eq_refl). reflexivity.
+      - rewrite (HD2 eq_refl). reflexivity. }
+    rewrite S4. cbn [bind]. clear S4.
+    unfold norm_decimal. cbn [c_type]. destruct (str_eqb m ty_decimal) eqn:Edc; [|reflexivity].
+    apply str_eqb_eq in Edc. subst m. destruct (Hdec eq_refl) as [Hp Hs].
+    rewrite fill_present by exact Hp. cbn [c_scale]. rewrite Hs. reflexivity.
+Qed.
+
+(* ---------- FlatColumn(keywords) when the keywords are a column's attributes with type / element type /
+   disposition in text form ---------- *)
+Definition free (f : field) : bool :=
+  negb (field_eqb f FType || field_eqb f FElementType || field_eqb f FDisposition).
+
+Definition default_ok (c : column) (D : pv) : Prop :=
+  if untyped c then truthy D = false /\ D = c_default c
+  else (truthy D = true -> forall m, c_type c = PA (ATy m) -> parse m D = Ok (c_default c)) /\
+       (truthy D = false -> D = c_default c).
+
+Lemma init_text : forall cls fresh kw c D X,
+  wf_col c -> default_ok c D -> exp_in X = Ok (c_expectations c) ->
+  (forall f, lookup f kw = Some (kw_view c D X f)) ->
+  init parse cls fresh kw = Ok (restored c).
+Proof.
+  intros cls fresh kw c D X Hwf HD HX Hkw. unfold init.
+  assert (HC : collect cls fresh kw =
+               Ok (map (fun f => (f, if field_eqb f FExpectations then c_expectations c else kw_view c D X f)) all_fields)).
+  { unfold collect. apply mapM_ok. intros f _. unfold field_value. rewrite Hkw.
+    destruct f; cbn [field_eqb kw_view bind]; try reflexivity. rewrite HX. reflexivity. }
+  rewrite HC. cbn [bind]. rewrite of_assoc_map.
+  change (build (fun f => if field_eqb f FExpectations then c_expectations c else kw_view c D X f))
+    with (build (kw_view c D (c_expectations c))).
+  exact (chain_text c D Hwf HD).
+Qed.
+
+(* ---------- dictionary round trip of one column ---------- *)
+Definition plain_free (c : column) : Prop := forall f, free f = true -> conv (get f c) = get f c.
+
+Lemma conv_text_form : forall c, wf_col c ->
+  conv (c_type c) = text_form (c_type c) /\ conv (c_elt c) = text_form (c_elt c) /\
+  conv (c_disposition c) = text_form (c_disposition c).
+Proof.
+  intros c [[m [Ht _]] He _ Hd _]. rewrite Ht. split; [reflexivity|]. split.
+  - destruct He as [-> | [e [-> _]]]; reflexivity.
+  - destruct Hd as [-> | [d [-> _]]]; reflexivity.
+Qed.
+
+Lemma init_to_dict : forall cls fresh c,
+  wf_col c -> plain_free c -> default_ok c (c_default c) ->
+  exp_in (c_expectations c) = Ok (c_expectations c) ->
+  init parse cls fresh (to_dict_col c) = Ok (restored c).
+Proof.
+  intros cls fresh c Hwf Hpl HD HX.
+  apply (init_text cls fresh (to_dict_col c) c (c_default c) (c_expectations c) Hwf HD HX).
+  intros f. rewrite lookup_to_dict. destruct (conv_text_form c Hwf) as [H1 [H2 H3]].
+  destruct f; cbn [kw_view]; apply f_equal; first [ apply Hpl; reflexivity | exact H1 | exact H2 | exact H3 ].
+Qed.
+
+(* ---------- schemas ---------- *)
+Lemma restore_cols_to_dict : forall fresh cs i,
+  Forall (fun c => wf_col c /\ plain_free c /\ default_ok c (c_default c) /\
+                   exp_in (c_expectations c) = Ok (c_expectations c)) cs ->
+  restore_cols parse fresh i (map (fun c => DCol (to_dict_col c)) cs) = Ok (map restored cs).
+Proof.
+  intros fresh cs. induction cs as [|c cs IH]; intros i H; cbn [map restore_cols]; [reflexivity|].
+  inversion H as [|? ? [H1 [H2 [H3 H4]]] Hr]; subst.
+  rewrite (init_to_dict class_flat (fresh i) c H1 H2 H3 H4). cbn [bind].
+  rewrite (IH (S i) Hr). reflexivity.
+Qed.
+
+Lemma from_dict_to_dict : forall fresh s,
+  Forall (fun c => wf_col c /\ plain_free c /\ default_ok c (c_default c) /\
+                   exp_in (c_expectations c) = Ok (c_expectations c)) (s_columns s) ->
+  from_dict parse fresh (to_dict s) =
+  Ok (mkschema (conv (s_name s)) (conv (s_aliases s)) (map restored (s_columns s)) (conv (s_pk s)) PNone PNone PNone PNone).
+Proof.
+  intros fresh s H. unfold from_dict, to_dict. cbn [d_name d_aliases d_columns d_pk].
+  rewrite (restore_cols_to_dict fresh (s_columns s) 0 H). reflexivity.
+Qed.
+
+Lemma restored_typed : forall c, untyped c = false -> restored c = c.
+Proof. intros c H. unfold restored. rewrite H. reflexivity. Qed.
+
+Lemma map_restored_typed : forall cs, Forall (fun c => untyped c = false) cs -> map restored cs = cs.
+Proof.
+  induction cs as [|c cs IH]; intros H; cbn [map]; [reflexivity|].
+  inversion H; subst. rewrite restored_typed by assumption. rewrite IH by assumption. reflexivity.
+Qed.
+
+Lemma restored_other : forall c f, f <> FType -> get f (restored c) = get f c.
+Proof.
+  intros c f Hf. unfold restored. destruct (untyped c); [|reflexivity].
+  apply get_set_other. intros E. apply Hf. symmetry. exact E.
+Qed.
+
+(* ---------- behaviour of the restored column ---------- *)
+Lemma proj_restored : forall key c, proj_col key (restored c) = proj_col key c.
+Proof.
+  intros key c. unfold restored, untyped. destruct c as [n d t e ds dp al nu ex id ln pr sc og hi lo nc].
+  cbn [c_type]. destruct t as [[]|]; try reflexivity.
+  destruct (str_eqb m missing_member) eqn:E; [|reflexivity].
+  unfold proj_col, set, build. cbn [get field_eqb c_name c_type c_nullable proj_type]. rewrite E. reflexivity.
+Qed.
+
+Lemma proj_schema_restored : forall key cs, map (proj_col key) (map restored cs) = map (proj_col key) cs.
+Proof. intros key cs. rewrite map_map. apply map_ext. intros c. apply proj_restored. Qed.
+
+Lemma missing_truthy : truthy (PA (ATy missing_member)) = true.
+Proof. vm_compute. reflexivity. Qed.
+
+Lemma describe_restored : forall c, describe (restored c) = describe c.
+Proof.
+  intros c. unfold restored, untyped. destruct c as [n d t e ds dp al nu ex id ln pr sc og hi lo nc].
+  cbn [c_type]. destruct t as [[]|]; try reflexivity.
+  destruct (str_eqb m missing_member) eqn:E; [|reflexivity].
+  apply str_eqb_eq in E. subst m.
+  unfold describe, set, build. cbn [get field_eqb c_type c_name c_precision c_scale c_nullable c_elt].
+  rewrite missing_truthy. reflexivity.
+Qed.
+End Chain.
